@@ -848,12 +848,17 @@ func (env *Environment) runTasksAsHooks(hooksToTrigger task.Tasks) (errorMap map
 	}
 
 	doneCh := make(chan struct{})
+	stopCh := make(chan struct{})
 
 	go func() {
 		successfulHooks := make(task.Tasks, 0)
 
 		for {
 			select {
+			case <-stopCh:
+				// the hooks could not be triggered, there is nothing to collect
+				doneCh <- struct{}{}
+				return
 			case tid := <-timeoutCh:
 				log.WithField("taskId", tid).Debug("incoming hook timeout")
 				thisHook := hooksToTrigger.GetByTaskId(tid)
@@ -961,6 +966,10 @@ func (env *Environment) runTasksAsHooks(hooksToTrigger task.Tasks) (errorMap map
 
 	err := env.hookHandlerF(hooksToTrigger)
 	if err != nil {
+		// Stop the collector goroutine first: left running it would keep taking the termination events of
+		// later hooks from env.incomingEvents, and it shares hookTimers and errorMap with us.
+		close(stopCh)
+		<-doneCh
 		for _, h := range hooksToTrigger {
 			errorMap[h] = err
 			timer, ok := hookTimers[h.GetTaskId()]
